@@ -125,6 +125,7 @@ func workerMain(args []string) int {
 			continue
 		}
 		res.Evals = core.Evaluations.Load() - before
+		res.ProcFrom = *from
 		res.Hash = oracle.HashCase(c)
 		if res.Family == "" {
 			res.Family = c.Family
